@@ -1,7 +1,7 @@
 (* Refl/IsoExamples.v -- C06: a small concrete instance of the external matching code and a few concrete states, used by the
    non-vacuity Examples (the premises of the theorems are satisfiable by non-trivial states). *)
 From Coq Require Import List NArith ZArith Bool Arith.
-From Muscle Require Import Gen.Consts Refl.Base Refl.Tree Refl.Matcher Refl.Traverse Refl.Session Refl.Server Refl.IsoModel.
+From Muscle Require Import Gen.Consts Refl.Base Refl.BaseProofs Refl.Tree Refl.Matcher Refl.Traverse Refl.Session Refl.Server Refl.IsoModel.
 Import ListNotations.
 
 (* clauses: "*" or one literal name; filters: none that reject *)
@@ -25,3 +25,14 @@ Definition ex_history : list xevent :=
     XCmd 11%N (XSetData 0%N [((false, [7%N]), 5%N); ((false, [8%N; 9%N]), 6%N)]) ].
 
 Definition ex_state (fx : fixes) : xserver := xrun fx ex_history empty_xserver.
+
+(* the example instance satisfies the laws the theorems assume of the matching code *)
+#[export] Instance ExLaws : MatchLaws ExOps.
+Proof.
+  constructor.
+  - intros [a|] [b|]; cbn; split; intros H; try discriminate; try reflexivity.
+    + apply N.eqb_eq in H. now subst.
+    + inversion H. apply N.eqb_refl.
+  - reflexivity.
+  - intros [x|] ks H k; cbn in *; [|discriminate]. inversion H; subst. cbn. rewrite N.eqb_eq. split; [intros ->; now left|intros [E|[]]; now subst].
+Qed.
